@@ -24,7 +24,10 @@ RULE = ("E2 both orders: states reached by the seeded e2 generator (real Workflo
         "(state, r1, r2). E3: generated projects with concurrently running sub-plans that declare "
         "overlapping things, each built from scratch under -j1, -j4 with three seeded gate-release orders "
         "(start and end gates), a resource-limited run and a resumed no-change run; canonical graphs, "
-        "return-code classes and (for one two-party conflict) error texts are compared")
+        "return-code classes and (for one two-party conflict) error texts are compared; timing projects "
+        "(a consumer reads an undeclared file and waits at a gate, its producer stops, unrelated steps start "
+        "and stop in seeded, partly overlapping orders, then the consumer amends the file) under -j1 versus "
+        "-j6 with four such gate orders and one random order: files and graph digests must agree")
 TRUSTED_BASE = [
     "Coq 8.16.1 kernel; vm_compute in the refutation lemmas, Examples and the correspondence evaluation",
     "Print Assumptions: Closed under the global context for every C02 theorem",
@@ -47,6 +50,12 @@ ASSUMPTIONS = [
 HEADER = ("From Coq Require Import List NArith Bool.\nImport ListNotations.\n"
           "From SV Require Import lib.Bytes model.Graph model.GraphDump model.GraphInv model.Commute.\n"
           "Open Scope N_scope.\n")
+
+
+def _cq_op(op):
+    """Plain model/Graph.v operation (harness/e2.py wraps them in GraphTree's OpBase since the
+    static-tree layer exists; C02's traces never register a tree)."""
+    return getattr(e2, "cq_base_op", e2.cq_op)(op)
 
 
 def generate(ctx):
@@ -157,7 +166,7 @@ def _cq_exp(order):
 
 def _cq_case(p):
     (o12, o21) = p["res"]
-    return f"({e2.cq_op(p['r1'])}, {e2.cq_op(p['r2'])}, {_cq_exp(o12)}, {_cq_exp(o21)})"
+    return f"({_cq_op(p['r1'])}, {_cq_op(p['r2'])}, {_cq_exp(o12)}, {_cq_exp(o21)})"
 
 
 def _wit(p):
@@ -178,7 +187,7 @@ def correspondence(ctx):
         pairs = st["pairs"][:per_state]
         if not pairs:
             continue
-        ops = common.coq_list([e2.cq_op(o) for o in st["ops"]])
+        ops = common.coq_list([_cq_op(o) for o in st["ops"]])
         cases = common.coq_list([_cq_case(p) for p in pairs])
         checks.append(f"orders_check 3 {ops} {cases}")
         idx.append(si)
@@ -188,7 +197,7 @@ def correspondence(ctx):
     for b in bad[:3]:
         st = states[idx[b]]
         pairs = st["pairs"][:per_state]
-        ops = common.coq_list([e2.cq_op(o) for o in st["ops"]])
+        ops = common.coq_list([_cq_op(o) for o in st["ops"]])
         cases = common.coq_list([_cq_case(p) for p in pairs])
         v = common.eval_terms(ctx, "ordersdiag", HEADER, [f"orders_bad 3 {ops} {cases}"])
         flags = [x == "true" for x in (v[0] or "").replace("[", " ").replace("]", " ").replace(";", " ").split()]
@@ -216,8 +225,8 @@ def correspondence(ctx):
     # witnesses of the refutation lemmas: model verdict and real-code verdict
     wchecks = []
     for name, w in WITNESSES.items():
-        ops = common.coq_list([e2.cq_op(o) for o in w["trace"]])
-        wchecks.append(f"(verdict_code (both_orders ({e2.cq_op(w['r1'])}) ({e2.cq_op(w['r2'])}) "
+        ops = common.coq_list([_cq_op(o) for o in w["trace"]])
+        wchecks.append(f"(verdict_code (both_orders ({_cq_op(w['r1'])}) ({_cq_op(w['r2'])}) "
                        f"(run_ops {ops} (init_st 3))) =? {VERDICTS[w['verdict']]}) && "
                        f"all_ok {ops} (init_st 3)")
     badw = common.run_cases(ctx, "wit", HEADER, wchecks, chunk=10)
@@ -340,6 +349,9 @@ def _e3_items(ctx):
     for sh in shifts:
         items += [("overlap", 10000 * ctx.seed + i, sh) for i in range(no)]
         items += [("gen", 5000 + 10000 * ctx.seed + i, sh) for i in range(ng)]
+    # timing bookkeeping (start/stop stamps behind amend()'s freshness test and the post-run input
+    # check): consumer reads, producer stops, unrelated steps start and stop, consumer amends
+    items += [("timing", 10000 * ctx.seed + i, 0) for i in range(ctx.scale(30, 250))]
     return items
 
 
